@@ -514,3 +514,75 @@ mod test {
         }
     }
 }
+
+// Verification hooks (add-only, compiled only with `--cfg rngs_verif`).
+// Accessors, constructors and thin wrappers that call the private functions;
+// no hook re-implements any logic.
+#[cfg(rngs_verif)]
+impl Hc128Core {
+    /// Verification hook: a core with an all-zero table and counter 0.
+    pub fn verif_zeroed() -> Self {
+        Self {
+            t: [0u32; 1024],
+            counter1024: 0,
+        }
+    }
+
+    /// Verification hook: read access to the P/Q table.
+    pub fn verif_t(&self) -> &[u32; 1024] {
+        &self.t
+    }
+
+    /// Verification hook: write access to the P/Q table.
+    pub fn verif_t_mut(&mut self) -> &mut [u32; 1024] {
+        &mut self.t
+    }
+
+    /// Verification hook: read the step counter.
+    pub fn verif_counter(&self) -> usize {
+        self.counter1024
+    }
+
+    /// Verification hook: set the step counter.
+    pub fn verif_set_counter(&mut self, c: usize) {
+        self.counter1024 = c;
+    }
+
+    /// Verification hook: call the private `step_p`.
+    pub fn verif_step_p(&mut self, i: usize, i511: usize, i3: usize, i10: usize, i12: usize) -> u32 {
+        self.step_p(i, i511, i3, i10, i12)
+    }
+
+    /// Verification hook: call the private `step_q`.
+    pub fn verif_step_q(&mut self, i: usize, i511: usize, i3: usize, i10: usize, i12: usize) -> u32 {
+        self.step_q(i, i511, i3, i10, i12)
+    }
+
+    /// Verification hook: call the private `sixteen_steps`.
+    pub fn verif_sixteen_steps(&mut self) {
+        self.sixteen_steps()
+    }
+
+    /// Verification hook: call the private `init` on eight seed words.
+    pub fn verif_init(seed: [u32; SEED_WORDS]) -> Self {
+        Self::init(seed)
+    }
+}
+
+#[cfg(rngs_verif)]
+impl Hc128Rng {
+    /// Verification hook: wrap a core in a fresh (empty-buffer) `Hc128Rng`.
+    pub fn verif_from_core(core: Hc128Core) -> Self {
+        Hc128Rng(BlockRng::new(core))
+    }
+
+    /// Verification hook: read access to the wrapped `BlockRng`.
+    pub fn verif_inner(&self) -> &BlockRng<Hc128Core> {
+        &self.0
+    }
+
+    /// Verification hook: write access to the wrapped `BlockRng`.
+    pub fn verif_inner_mut(&mut self) -> &mut BlockRng<Hc128Core> {
+        &mut self.0
+    }
+}
